@@ -603,6 +603,36 @@ def gen_request(rng: random.Random, case: dict, lat: dict) -> Fraction:
     return -v if supply else v
 
 
+def gen_isclose(rng: random.Random) -> dict:
+    """Two equal groups where the second group's excess covers the first group's deficit exactly
+    (exclusion bound = 3/4 of the request), then one number is moved by ~1e-10 relative: exercises the
+    `math.isclose` shortcut of the deficit covering (regime tag `isclose_cover`)."""
+    scale = Fraction(rng.choice([1, 4, 100, 1000, 12345]))
+    P = 100 * scale
+    e = 75 * scale
+    wiggle = rng.choice([0, 1, -1, 2, -2, 5, 15, -15]) * Fraction(1, 10**10)
+    e = e * (1 + wiggle)
+    if rng.random() < 0.3:
+        P = P * (1 + rng.choice([1, -1]) * Fraction(3, 10**10))
+    incl = 400 * scale
+    ids = list(range(1, 40))
+    rng.shuffle(ids)
+
+    def grp(excl: Fraction) -> dict:
+        return {"bats": [{"id": ids.pop(), "cap": "10", "soc": "50", "soc_lo": "10", "soc_hi": "90", "il": rat(-incl),
+                          "el": rat(-excl), "eu": rat(excl), "iu": rat(incl)}],
+                "invs": [{"id": ids.pop(), "il": rat(-incl), "el": "0", "eu": "0", "iu": rat(incl)}]}
+
+    groups = [grp(e), grp(Fraction(0))]
+    if rng.random() < 0.4:
+        groups.append(grp(Fraction(0)))
+        P = P * Fraction(3, 2)
+    rng.shuffle(groups)
+    case = {"power": rat(P if rng.random() < 0.5 else -P), "exp": 1, "failed": None, "groups": groups}
+    finish_case(case)
+    return case
+
+
 def gen_malformed(rng: random.Random) -> dict:
     """Inputs outside the quantifier's domain: only model = code is required."""
     case = gen_case(rng)
@@ -744,8 +774,12 @@ def process(ctx: Any, prop: str, case: dict, mgr_probe: bool) -> dict:
     # float run: measure the rounding gap
     fl = run_impl(case, exact=False)
     gap = max([abs(F(fl["rem"]) - F(out["rem"]))] + [abs(F(fl["dist"][k]) - F(v)) for k, v in out["dist"].items()]) / scale
-    ctx.extra["float_gap_max_rel"] = max(ctx.extra.get("float_gap_max_rel", 0.0), float(gap))
-    if gap > Fraction(1, 10**6):
+    ctx.extra["float_gap_worst_rel"] = max(ctx.extra.get("float_gap_worst_rel", 0.0), float(gap))
+    if gap <= Fraction(1, 10**6):
+        # rounding gap proper (cases where float and exact runs take the same branches)
+        ctx.extra["float_gap_max_rel"] = max(ctx.extra.get("float_gap_max_rel", 0.0), float(gap))
+    else:
+        # a comparison flipped under rounding (e.g. a share landing exactly on an exclusion bound)
         tags.append("float-divergent")
         ctx.extra["float_divergent_cases"] = ctx.extra.get("float_divergent_cases", 0) + 1
         if "float_divergent_example" not in ctx.extra:
@@ -809,7 +843,8 @@ def run_property(ctx: Any, prop: str) -> None:
         outs.append(process(ctx, prop, c, mgr_probe=True))
     for i in range(n):
         rng = ctx.subrng("case", i)
-        case = gen_malformed(rng) if rng.random() < 0.12 else gen_case(rng)
+        r = rng.random()
+        case = gen_malformed(rng) if r < 0.12 else (gen_isclose(rng) if r < 0.14 else gen_case(rng))
         probe = prop == "C01" and i % 8 == 0
         if probe and rng.random() < 0.5:
             prepare_failed(case, rng)
